@@ -488,7 +488,11 @@ class FieldHeader:
 
     @property
     def disambiguated(self) -> str:
-        return self.raw + "_" if self.raw in utils.RESERVED_NAMES else self.raw
+        # Disambiguate every segment of a (possibly dotted) field path.
+        return ".".join(
+            segment + "_" if segment in utils.RESERVED_NAMES else segment
+            for segment in self.raw.split(".")
+        )
 
 
 @dataclasses.dataclass(frozen=True)
